@@ -97,8 +97,12 @@ var fam2Operands = []string{
 }
 
 func dotFamily(all bool, emit func(string)) {
-	for _, l := range fam2Operands {
-		for _, r := range fam2Operands {
+	ops := fam2Operands
+	if !all {
+		ops = ops[:24] // quick tier: the rarer operand kinds only in the thorough tier
+	}
+	for _, l := range ops {
+		for _, r := range ops {
 			emit(l + "." + r)
 			emit("(" + l + ").(" + r + ")")
 			emit("x = -" + l + "." + r + ".z(1) + 1")
@@ -187,12 +191,12 @@ func nestedAdjacency(r *rng, quick bool, emit func(string)) {
 					continue
 				}
 				for _, blk := range fam2Blocks[1:] {
-					if quick && r.intn(30) != 0 {
+					if quick && r.intn(60) != 0 {
 						continue
 					}
 					emit(inBlock(blk, a+s+b))
 				}
-				if !quick || r.intn(6) == 0 {
+				if !quick || r.intn(10) == 0 {
 					emit(a + s + b + s + a)
 				}
 			}
